@@ -380,7 +380,7 @@ def rule_order(ctx):
         ok = set_in_loop and raised
     ctx.ob('C02.order', f'{sd.module.name}:SynthDef._check_inputs:raises', ok,
            'an input error reported by any unit must be recorded and raised after the loop', f.node, sd.module)
-    loops = [s for s in walk_local(f.node) if isinstance(s, ast.For)]
+    loops = [s for s in walk_local(f.node) if isinstance(s, ast.For) and norm(s.iter) == 'self._children']     # (inner loops over a unit's inputs are fine)
     ok = len(loops) == 1 and norm(loops[0].iter) == 'self._children' and \
         any(U.method_name(c) == '_check_inputs' and norm(c.func.value) == norm(loops[0].target) for c in U.calls(loops[0]))
     ctx.ob('C02.order', f'{sd.module.name}:SynthDef._check_inputs:all-units', ok,
@@ -653,6 +653,9 @@ def rule_multiout(ctx):
 def run(ctx):
     from ..report import SubCtx
     from . import c04
+    sub_c04 = SubCtx(ctx, 'C02.ctl', 'the control units must cover the slots the name table points at: control-unit creation and slot advance, as decided for C04')
+    c04.rule_ctl(sub_c04)
+    from . import c04
     sub = SubCtx(ctx, 'C02.names', 'the name table and the variant blocks are part of the emitted bytes: their sources (one entry per control name, one full-width block per variant), as decided for C04')
     c04.rule_names(sub)
     rule_multiout(ctx)
@@ -726,6 +729,19 @@ def run(ctx):
                 if cp and cp[1] in (ast.IsNot, ast.NotEq) and {norm(cp[0]).split('.')[-1], norm(cp[2]).split('.')[-1]} == {'_synthdef'} \
                         and 'self._synthdef' in (norm(cp[0]), norm(cp[2])):
                     foreign = True
+    # ... centrally as well: units override _check_inputs (and may return before the generic check), and width-first units are not
+    # UGen instances; the definition's own loop over its units is the one place every input passes
+    sc_ = ctx.repo.func('sc3.synth.synthdef:SynthDef._check_inputs')
+    central = False
+    for t in walk_local(sc_.node):
+        if isinstance(t, ast.If):
+            cj = [norm(c) for c in U.conjuncts(t.test)]
+            if any('._synthdef is not self' in c or 'self is not ' in c and '._synthdef' in c for c in cj) and \
+                    any('SynthObject' in c for c in cj) and not any('ugn.UGen)' in c for c in cj):
+                central = True
+    ctx.ob('C02.valid', f'{sc_.fq}:foreign-unit', central,
+           'SynthDef._check_inputs must refuse, for every unit, an input that is a SynthObject of another definition (not only UGen instances, '
+           'and independently of the unit\'s own _check_inputs)', sc_.node, sc_.module)
     ctx.ob('C02.valid', f'{cv.fq}:foreign-unit', foreign,
            'an input that is a unit of another definition (a closure leak from an earlier build) must make the validity check return an error', cv.node, cv.module)
     from .. import beliefs
@@ -755,6 +771,8 @@ def run(ctx):
 
 
 MUTANTS = [
+    dict(rule='C02.valid', name='central foreign-unit refusal dropped (fix reverted)', file='sc3/synth/synthdef.py',
+         old="                    if isinstance(input, ugn.SynthObject)\\\n                    and input._synthdef is not self:\n", new="                    if False:\n"),
     dict(rule='C02.valid', name='foreign units accepted as inputs (fix reverted)', file='sc3/synth/ugen.py',
          old="            if isinstance(input, UGen)\\\n            and input._synthdef is not self._synthdef:\n", new="            if False:\n"),
     dict(rule='C02.desc', name='description lists Out units as inputs', file='sc3/synth/synthdesc.py',
